@@ -54,6 +54,29 @@ def main : IO Unit := do
     chk2 "variable-step item end" (fun a b => n (Gen.var_end a b 7)) (fun a b => n (a + b)) "start, span (step 7)",
     chk2 "fixed-step item end" (fun a b => n (Gen.fixed_end a b 7)) (fun a b => n (a + b)) "start, span (step 7)",
     chk2 "fixed-step start of item 2" (fun a b => n (fixedStart a b 9 2)) (fun a b => n (a + 2 * b)) "section start, step (span 9)"]
+  let z (x : Int) : String := toString x
+  let tests := tests ++ [
+    chk2 "FileView read length (window end 4)" (fun nb cur => n (Gen.fv_read_len nb 4 cur)) (fun nb cur => n (min nb (4 - cur))) "buffer length, position",
+    chk2 "FileView seek(Start) target (window [2, 5))" (fun k _ => n (Gen.fv_start_target 2 5 k)) (fun k _ => n (min 5 (2 + k))) "offset, -",
+    chk2 "FileView reported position" (fun p lo => n (Gen.fv_rel p lo)) (fun p lo => n (p - lo)) "absolute position, window start",
+    chk2 "FileView seek(End) target (window [lo, 6), offset 2 − d)" (fun lo d => z (Gen.fv_end_clamp (Gen.fv_end_pos 6 (Gen.fv_end_offset (2 - (d : Int) * 3))) lo 6))
+      (fun lo d => z (max ((6 : Int) + min (2 - (d : Int) * 3) 0) (lo : Int))) "window start, d",
+    chk2 "FileView seek(Current) target (window [2, 6), position 3, offset 2·d − 4)" (fun d _ => n ((Gen.fv_cur_clamp (Gen.fv_cur_pos 3 (2 * (d : Int) - 4)) 2 6).toNat))
+      (fun d _ => n ((min (max ((3 : Int) + (2 * (d : Int) - 4)) 2) 6).toNat)) "d, -"]
+  let tests := tests ++ [
+    chk2 "bisection: stop test" (fun p l => s (Gen.ix_stop p l 0 0)) (fun p l => s (decide (l ≤ p + 1))) "previous line start, limit",
+    chk2 "bisection: probe" (fun p l => n (Gen.ix_probe p (p + l) 0 0)) (fun p l => n (p + (p + l - p - 1) / 2)) "previous line start, limit − previous line start",
+    chk2 "bisection: nothing to the right test" (fun t l => s (Gen.ix_nothing_right 0 l 0 t)) (fun t l => s (decide (t ≥ l))) "line start found, limit",
+    chk2 "bisection: limit of the retry to the left" (fun m t => n (Gen.ix_retry_limit 0 9 m t)) (fun m _ => n (m + 1)) "probe, line start found",
+    chk2 "bisection: limit of the left half" (fun m t => n (Gen.ix_left_limit 0 9 m t)) (fun _ t => n t) "probe, line start found",
+    chk2 "bisection: limit of the right half" (fun m t => n (Gen.ix_right_limit 0 9 m t)) (fun _ _ => n 9) "probe, line start found (limit 9)"]
+  let tests := tests ++ [
+    chk2 "chunker: chunk size" (fun fs k => n (Gen.ch_size fs (k + 1) 0 0 0)) (fun fs k => n (fs / (k + 1))) "file size, chunks − 1",
+    chk2 "chunker: first cut target" (fun cs _ => n (Gen.ch_first_end 9 2 cs 0 0)) (fun cs _ => n cs) "chunk size, -",
+    chk2 "chunker: next chunk start" (fun a b => n (Gen.ch_next_start 9 2 3 a b)) (fun _ b => n b) "chunk start, line end",
+    chk2 "chunker: next cut target (chunk size 1)" (fun a b => n (Gen.ch_next_end_raw 9 2 1 a b)) (fun a b => n (max b (a + 1 + 1))) "chunk start, line end",
+    chk2 "chunker: clamp to the file size" (fun b fs => n (Gen.ch_clamp_end fs 2 1 0 b)) (fun b fs => n (min b fs)) "cut target, file size",
+    chk2 "chunker: exit test" (fun a fs => s (Gen.ch_done fs 2 1 a 0)) (fun a fs => s (decide (a ≥ fs))) "next chunk start, file size"]
   for t in tests do
     if (← t) then return
   IO.println "NOCEX"
